@@ -220,6 +220,7 @@ pub fn eval_pattern_text(cfg: &Cfg, ast: &Node, pat: Vec<u32>, flags: Flags, hay
         st.add("patterns_skipped_after_violation_budget", 1);
         return;
     }
+    subject::set_case_desc(format!("/{}/{} (property {})", print::show(&pat), flags.to_string(), cfg.pid));
     let re = match subject::compile(&pat, flags, false) {
         CompileOutcome::Ok(re) => re,
         CompileOutcome::Err(_) => {
